@@ -8,8 +8,8 @@ Open Scope Z_scope.
 
 (* once valid (version and generation non-zero) the header stays valid under every writer step,
    hence at every crash point (a crash stores nothing) *)
-Theorem C04_valid_step : forall c w r w' it,
-  header_valid (w_log w) = true -> w_step c w r = (w', it) -> header_valid (w_log w') = true.
+Theorem C04_valid_step : forall c w r k w' it,
+  header_valid (w_log w) = true -> w_step c w r k = (w', it) -> header_valid (w_log w') = true.
 Proof. exact w_step_valid. Qed.
 
 Theorem C04_crash_stores_nothing : forall w, w_log (w_crash w) = w_log w.
@@ -25,9 +25,9 @@ Theorem C04_takeover_in_place : forall c w, header_valid (w_log w) = true ->
 Proof. exact w_restart_valid. Qed.
 
 (* an update entered from the odd generation a dead writer left behind adopts that value *)
-Theorem C04_adopts_odd_generation : forall c w r,
+Theorem C04_adopts_odd_generation : forall c w r k,
   w_pc w = WIdle -> Z.odd (latest_val LGen (w_log w)) = true ->
-  let w1 := fst (w_step c w r) in let w2 := fst (w_step c w1 r) in
+  let w1 := fst (w_step c w r k) in let w2 := fst (w_step c w1 r k) in
   latest_val LGen (w_log w2) = latest_val LGen (w_log w).
 Proof. exact adopt_odd. Qed.
 
